@@ -89,10 +89,12 @@ def rule_count_band(mode, cutoff, allv):
     cum = np.cumsum(asc ** p)  # cum[t-1] = weight of the t smallest
     total = cum[-1] if N else 0.0
     c = cutoff * total if mode in (4, 6) else cutoff
-    tol = EPS * max(total, c, 1e-300)
-    # trimmed t: largest t with cum[t-1] < c
-    t_hi = int(np.sum(cum < c + tol))  # most that may be trimmed
-    t_lo = int(np.sum(cum < c - tol))  # least that must be trimmed
+    # trimmed t: largest t with cum[t-1] < c.  The partial sums are
+    # accumulated from the small end, so they are accurate relative to
+    # themselves: the band is relative to c, not to the total weight (a
+    # group of tiny values must not disappear in the rounding of the total)
+    t_hi = int(np.sum(cum < c * (1 + EPS)))  # most that may be trimmed
+    t_lo = int(np.sum(cum < c * (1 - EPS)))  # least that must be trimmed
     lo, hi = N - t_hi, N - t_lo
     # values that tie with the smallest kept value may be kept as well (the
     # rule cannot tell them apart); this is not the bond-limit tie finding
@@ -204,6 +206,9 @@ def law_truncate(ch):
     import symmray as sr
 
     mc = ch.draw(matrix_cases(), "m")
+    if mc["kind"] == "direct" and mc["spec"]["data"] == "gauss" and \
+            ch.boolean("wide-range", p=0.35):
+        mc["spec"]["data"] = "wide"
     x, spec = build_matrix(mc)
     if x is None or not x.blocks:
         return
